@@ -299,7 +299,7 @@ def run_suite(res, cases, name, per=150):
         return [], alias
     shards = ["Definition RE := %s.\nDefinition DD : decls := %s.\n%s\nDefinition cases : list mcase := [\n%s\n].\n"
               "Goal True. idtac \"RES\". exact I. Qed.\nEval vm_compute in (map run_mcase cases).\n"
-              % (table, world.decls_term(), PRELUDE, ";\n".join(lines[s:s + per])) for s in range(0, len(lines), per)]
+              % (table, world.decls_term_for(lines[s:s + per]), PRELUDE, ";\n".join(lines[s:s + per])) for s in range(0, len(lines), per)]
     mism, skips, total_ops = [], 0, 0
     hyp_fail = {}
     for k, (rc, out) in enumerate(core.run_sharded(name, ["Parse", "Schema", "FieldSpec", "SchemaProofs"], shards)):
